@@ -182,6 +182,7 @@ def Step (σ : State) (op : Op) (evs : List Ev) (σ' : State) : Prop :=
       (∀ n, evs.filter (fun e => decide (e.name? = some n)) = (handover (σ.queue n) c).map (Told.ev n))
   | .getOwner c n => σ' = σ ∧ evs = [ownerAnswer (σ.queue n) c]
   | .listQueued c n => σ' = σ ∧ evs = [queueAnswer (σ.queue n) c]
+  | .other _ => σ' = σ ∧ evs = []        -- nothing else changes the table or sends name signals
 
 /-- A whole history: the steps one after the other, the events of each step kept apart. -/
 inductive Run : State → List Op → List (List Ev) → State → Prop where
@@ -217,5 +218,6 @@ def exec (names : List Name) (fresh : Conn) (σ : State) (op : Op) : Option (Sta
     else none
   | .getOwner c n => some (σ, [ownerAnswer (σ.queue n) c])
   | .listQueued c n => some (σ, [queueAnswer (σ.queue n) c])
+  | .other _ => some (σ, [])
 
 end Txdbus.Bus.Spec
